@@ -2,6 +2,7 @@ package main
 
 import (
 	"fmt"
+	"math"
 	"strings"
 	"time"
 
@@ -220,6 +221,10 @@ func scenarios(tier string) []*vsched.Scenario {
 			poolScenario(cfgs[1], [][]jobSpec{{js("timed", S), js("timed-panic", S), js("plain", T)}}, false, 1, false),
 			poolScenario(cfgs[3], [][]jobSpec{{js("timed-panic", S), js("timed", S), js("plain", S)}}, false, 2, true),
 			poolScenarioP(scenlib.PoolCfg{Cap: 2, Buf: 0, Max: 1, StandBy: 0, Batch: 1}, [][]jobSpec{{js("timed", S), js("timed", S)}}, false, 1, 1, false))
+		// an on-demand pool (stand-by 0) whose batch size is "everything in one worker": the largest int and its neighbour
+		for _, batch := range []int{math.MaxInt, math.MaxInt - 1} {
+			out = append(out, poolScenario(scenlib.PoolCfg{Cap: 1, Buf: 2, Max: 1, StandBy: 0, Batch: batch}, scripts[3], false, 1, false))
+		}
 		// the panic handler replaced while a stand-by worker already exists; a closed pool whose queue stays open
 		out = append(out,
 			poolScenario(scenlib.PoolCfg{Cap: 1, Buf: 1, Max: 1, StandBy: 1, Batch: 1}, [][]jobSpec{{js("timed", S), js("", "sethandler"), js("panic", "late"), js("plain", S)}}, false, 1, false),
